@@ -48,10 +48,11 @@ func (fr *frame) callValue(f value, cc *ssa.CallCommon, args []value, pos token.
 // call dispatch: redirection, intrinsic/model, host-native, summary, body.
 func (m *machine) call(fn *ssa.Function, args []value, bind []value, pos token.Pos) value {
 	name := fn.String()
-	if m.inInit {
-		if fn.Name() == "init" && fn.Pkg != nil && fn.Synthetic != "" && !m.eng.initAllowed(fn.Pkg.Pkg.Path()) {
-			return nil
-		}
+	if fn.Name() == "init" && fn.Pkg != nil && fn.Synthetic == "package initializer" {
+		// a package initializer called from another one: run it isolated (an abort inside
+		// it must not abort the importer's own initialisers)
+		m.ensureInit(fn.Pkg)
+		return nil
 	}
 	if !m.inInit {
 		if r, ok := m.h.redirects[name]; ok {
